@@ -109,6 +109,7 @@ func load(root, dir string, minPkgs int, overlay map[string][]byte) (*Program, e
 	prog.Build()
 	p.Prog = prog
 	p.collectFuncs()
+	p.buildAliases()
 	return p, nil
 }
 
